@@ -4,4 +4,12 @@ CHECKS = {
   technique='Coq proof (lia/ring over an arbitrary commutative ring) about translated index code + vm_compute correspondence',
   text='Theorems for all integers i,j,t,u, all m,n>=0, all T, all coefficient rings: the translated multiply_basis/compute_l are the product of basis operators; the dict algorithms denote sum/difference/negation/scaling/transpose/product; multiply_rs_matrix and the flat-slice dense addition (translated bounds, Python slice semantics) compute the window product/sum; identity placeholder. The dict/loop skeleton is hand-modelled and run against the implementation on 340 (3400) generated cases per run.',
   note='Trusted: Coq kernel, translator subset, numpy/numba array semantics, pointwise modelling of write-once loops; coefficients exact in correspondence (1e-14 threshold modelled as ==0). No axioms (closed under the global context).'),
+ 'C18': dict(
+  technique='Coq proof by induction over lists/operation histories + exhaustive vm_compute enumeration (stated bound) + exhaustive correspondence',
+  text='Unbounded theorems: membership laws of | & - ^ and reflected forms for any operand list (repeats allowed); subset/superset/disjoint/< <= > >= equal the mathematical relations; results duplicate-free and ordered by first appearance, left operand first; history invariant over any operation sequence; only in-place operators change the receiver; Bijection constructor rejects exactly non-injective maps; apply-then-inverse is the identity on non-colliding names. Bounded theorem (all partial injective maps on 4 / 3 names, all universes): right-to-left composition law and associativity. Hand model tied by exhaustive correspondence over a 4-letter alphabet.',
+  note='Trusted: Coq kernel (vm_compute for the bounded enumeration), harness, CPython dict semantics as modelled. Composition law not proved for arbitrary alphabets (named *_partial). No axioms.'),
+ 'C15': dict(
+  technique='Coq proof: loop invariants for Kahn sort, DFS path invariant, sweep induction; vm_compute correspondence on random block lists',
+  text='Theorems for every block list: if the sort returns, the order is a permutation with every producer before its consumers (Kahn with the code stack and KeyError discipline, invariant proof); duplicate outputs are refused iff some name is produced twice; inputs/outputs = consumed-not-produced / produced; for any set.pop() choice a reported cycle is closed and made of real remaining dependency edges; visit_from_inputs is exactly the transitive closure on a sorted list. Hand model tied by exact comparison of order, io, adjacency and closures on 600 (6000) random block lists.',
+  note='Trusted: Coq kernel, harness, OrderedSet/Bijection (C18). Not proved: completeness (acyclic => returns; cycle always found), visit_from_outputs closure (correspondence + oracle only). No axioms.'),
 }
